@@ -380,6 +380,9 @@ public:
     {
         // Exactly 0 is ok (returns -inf)
         const bool u = a.maybe_nan || a.lower() < 0.0f;
+        if (a.upper() == 0.0f) {
+            return Interval(I(-INFINITY, -INFINITY), u);
+        }
         return Interval(boost::numeric::log(a.i), u);
     }
 
@@ -406,7 +409,8 @@ protected:
     I i;
 
     Interval(const I& i, bool maybe_nan)
-        : i(i), maybe_nan(maybe_nan)
+        : i(i), maybe_nan(maybe_nan || std::isnan(i.lower())
+                                    || std::isnan(i.upper()))
     {
         // Nothing to do here
     }
